@@ -130,6 +130,10 @@ pub fn parse_line(l: &str) -> Option<Line<'_>> {
     }
     let head = &rest[..open];
     let value = &rest[open + 1..rest.len() - 1];
+    if value.contains(['(', ')']) {
+        // two spliced annotations: which parenthesised group is "the" value is not defined
+        return None;
+    }
     let kpos = head.rfind(": ")?;
     let kind = &head[kpos + 2..];
     let before = &head[..kpos];
@@ -437,7 +441,7 @@ pub fn load_value(j: &Value, crosscheck: bool) -> Result<Loaded, LoadError> {
                 }
             }
             (p, k) if p.starts_with("STARK/FRI/Decommitment/Layer ") => {
-                let li: usize = p["STARK/FRI/Decommitment/Layer ".len()..].parse().map_err(|_| LoadError::Malformed("layer number".into()))?;
+                let li: usize = p["STARK/FRI/Decommitment/Layer ".len()..].parse().map_err(|_| LoadError::Unspecified(format!("unknown P->V annotation {} / {}", p, k)))?;
                 if li == 0 {
                     return mal("FRI layer number out of range");
                 }
